@@ -478,7 +478,7 @@ def run(tier, seed):
 
 _RULE = {
     "quick": "VLQ: 0..2^17 dense, +-300 around every 2^k (k<=28) and +-3000 around 128^k, 20000 random < 2^28; "
-             "write_Note: every spelling (<=2 accidentals) of every MIDI number 0..127, all 16 channels x 128 "
+             "key_signature_event / set_key: all 30 keys; write_Note: every spelling (<=2 accidentals) of every MIDI number 0..127, all 16 channels x 128 "
              "velocities, repeat 0..3; write_NoteContainer: sizes 0..6; write_Bar: all 30 keys x 18 meters, numerators "
              "1..255, denominators 2^0..2^7, 42 values (18 integral, 24 rounding incl. ties and a near-tie) alone and in pairs, every R/N/C "
              "pattern of length <= 4, repeat 0..3; write_Track: R/N/C patterns x instrument x leading rest x repeat "
